@@ -133,6 +133,22 @@ def h_boot_seed(cx, idl, ns, name):
     ys = [y[c] for c in idl]
     for s in range(ns):
         cx.prove_eq(b2[s + 1], sum(ys[int(r)] for r in t[s]) / n, 'seeded-boot-2nd[%d]' % (s + 1))
+    # observables of other lengths on the same chain name (shorter, then longer), same number of samples: each gets the table of its own length
+    for tag, idl3 in (('short', list(idl)[:-1] if len(idl) > 5 else list(idl) + [max(idl) + 1]), ('long', list(idl) + [max(idl) + 3, max(idl) + 4])):
+        z = {c: cx.real('z%s_%d' % (tag, c)) for c in idl3}
+        o3 = pe.Obs([np.array([z[c] for c in idl3], dtype=object if cx.mode == 'sym' else float)], [name], idl=[list(idl3)])
+        n3 = len(idl3)
+        try:
+            b3 = o3.export_bootstrap(samples=ns)
+        except core.Realize:
+            raise
+        except Exception as e:
+            cx.fail('seeded-boot-%s: export raised' % tag, '%s: %s' % (type(e).__name__, e))
+            continue
+        t3 = np.random.default_rng(seed).integers(0, n3, size=(ns, n3))
+        zs = [z[c] for c in idl3]
+        for s in range(ns):
+            cx.prove_eq(b3[s + 1], sum(zs[int(r)] for r in t3[s]) / n3, 'seeded-boot-%s[%d]' % (tag, s + 1))
 
 
 def h_boot_import(cx, n, ns, seed):
